@@ -69,6 +69,8 @@ class Opts:
     name_clash: bool = False        # property names that class-case to a schema name / parent prefix (F36, F37)
     component_params: bool = False  # components.parameters shared through $ref by several operations (arrays of inline enums, inline objects)
     multi_2xx: bool = False         # several of 200/201/202/204 with different bodies, listed in any order
+    error_only_ops: bool = False    # some operations document no 2xx and no default response at all (only errors, or nothing)
+    component_responses: bool = False  # error responses taken from components.responses through $ref, one entry under several statuses
     multi_media_resp: bool = False  # a 2xx response with several media types of different python types (Content-Type dispatch)
 
 
@@ -360,6 +362,11 @@ COMPONENT_PARAMS = {
 }
 
 
+COMPONENT_RESPONSES = {
+    "Problem": {"description": "a problem", "content": {"application/json": {"schema": {"type": "object", "properties": {"title": {"type": "string"}, "status": {"type": "integer"}}}}}},
+    "Empty": {"description": "no body"},
+}
+
 STREAM_TYPES = ("application/octet-stream", "text/event-stream", "application/x-ndjson")
 
 
@@ -382,7 +389,10 @@ def gen_responses(r: random.Random, o: Opts, schemas: dict) -> dict:
     elif o.streaming and k0 < 0.2:
         stream_op = True
         resp["200"] = {"description": "stream", "content": {r.choice(["text/event-stream", "application/x-ndjson"] if o.ndjson else ["text/event-stream"]): {"schema": gen_body_schema(r, o, schemas)}}}
-    if not stream_op or not o.mainstream:
+    error_only = o.error_only_ops and not stream_op and r.random() < 0.2
+    if error_only:
+        pass
+    elif not stream_op or not o.mainstream:
         n2 = r.choice([1, 1, 1, 2]) if not o.multi_2xx else r.choice([2, 2, 3])
         k2x = r.random()
         codes2 = r.sample(["200", "201", "202", "204"], n2) if k2x < 0.85 else (["206"] if k2x < 0.9 else r.sample(["203", "204", "206", "207", "226"], 2))
@@ -406,11 +416,15 @@ def gen_responses(r: random.Random, o: Opts, schemas: dict) -> dict:
     if o.error_responses:
         for c in r.sample(["400", "401", "403", "404", "409", "418", "422", "429", "500", "501", "502", "503"], r.randint(0, 3)):
             resp[c] = {"description": f"error {c}"}
-            if r.random() < 0.3:
+            if o.component_responses and r.random() < 0.7:
+                resp[c] = {"$ref": "#/components/responses/" + r.choice(sorted(COMPONENT_RESPONSES))}
+            elif r.random() < 0.3:
                 resp[c]["content"] = {"application/json": {"schema": {"type": "object", "properties": {"message": {"type": "string"}}}}}
     if o.redirects and r.random() < 0.4:
         resp[r.choice(["301", "302", "304", "101"])] = {"description": "redirect"}
-    if o.default_response and r.random() < 0.25 and not (stream_op and o.mainstream):
+    if error_only and not resp:
+        resp["404"] = {"description": "error 404"}
+    if o.default_response and r.random() < 0.25 and not (stream_op and o.mainstream) and not error_only:
         resp["default"] = {"description": "unexpected"}
     return dict(sorted(resp.items(), key=lambda kv: r.random())) if r.random() < 0.3 else resp
 
@@ -468,6 +482,8 @@ def gen_spec(r: random.Random, o: Opts | None = None) -> dict:
            "paths": paths, "components": {"schemas": schemas}}
     if o.component_params:
         doc["components"]["parameters"] = copy.deepcopy(COMPONENT_PARAMS)
+    if o.component_responses:
+        doc["components"]["responses"] = copy.deepcopy(COMPONENT_RESPONSES)
     return doc
 
 
